@@ -546,6 +546,87 @@ def mangled_declaration_rule(ctx):
     return obs
 
 
+def wave8_rules(ctx):
+    """obligations added after the eighth wave of seeded changes"""
+    from rules.c02 import FnScope
+    ob = ctx.ob
+    tc = ctx.tc
+    obs = []
+    # every token the expression printer writes is a constant, the output of one of the literal writers, or a field the parser
+    # has validated as an identifier: a string *value* is never re-spelled as a token
+    fs = [f for f in tc.fns if f.name == "expression_strigify_write" and f.body]
+    OK_FIELDS = {("DataField", "name"), ("StaticMember", "field_name"), ("Named", "name")}
+    WRITERS = ("gen_lit_str", "gen_lit_float", "to_string", "escape_html_body", "escape_html_quote")
+    if fs:
+        f = fs[0]
+        scope = FnScope(f.node, [])
+        bad, n_ = [], 0
+
+        def classify(e_, at, depth=0):
+            e_ = sir.strip_ref(e_)
+            k_ = e_.get("k")
+            if k_ == "lit" or sir.const_text(e_) is not None:
+                return True
+            if sir.format_call(e_) is not None:
+                return all(p_[0] == "lit" or classify(p_[1], at, depth + 1) for p_ in sir.format_call(e_))
+            if k_ in ("call", "mcall"):
+                nm = (sir.call_name(e_) or "").split("::")[-1] if k_ == "call" else e_["m"]
+                if nm in WRITERS:
+                    return True
+                if k_ == "mcall" and nm in ("as_str", "as_ref", "clone", "to_owned", "into") and not e_["args"]:
+                    return classify(e_["recv"], at, depth + 1)
+                return False
+            if k_ == "if" and e_.get("else") is not None:
+                def tail(b_):
+                    while b_.get("k") == "block" and b_["stmts"]:
+                        l_ = b_["stmts"][-1]
+                        b_ = l_["e"] if l_.get("k") == "expr" else l_
+                    return b_
+                return classify(tail(e_["then"]), at, depth + 1) and classify(tail(e_["else"]), at, depth + 1)
+            if k_ == "match":
+                return all(classify(a_["body"], at, depth + 1) for a_ in e_["arms"])
+            if k_ == "block" and e_["stmts"]:
+                l_ = e_["stmts"][-1]
+                return classify(l_["e"] if l_.get("k") == "expr" else l_, at, depth + 1)
+            if k_ == "path" and len(e_["segs"]) == 1 and depth < 6:
+                r = scope.resolve(e_["segs"][0], at)
+                if r is None:
+                    return False
+                if r[0] == "let" and r[1] is not None and not r[2]:
+                    return classify(r[1], r[3], depth + 1)
+                if r[0] in ("match", "let", "for"):
+                    path = r[2]
+                    variant = [p_[1:] for p_ in path if p_.startswith("@")]
+                    field = [p_ for p_ in path if not p_.startswith("@")]
+                    return bool(variant and field) and (variant[-1], field[-1]) in OK_FIELDS
+            return False
+        for g in sir.reach(tc, f):
+            sc_ = scope if g is f else FnScope(g.node, [])
+            for n in sir.walk(g.body):
+                if n.get("k") == "mcall" and n["m"] == "write_token" and n["args"]:
+                    n_ += 1
+                    scope_saved = scope
+                    scope = sc_
+                    ok_ = classify(n["args"][0], n)
+                    scope = scope_saved
+                    if not ok_:
+                        bad.append("%s: `%s`" % (g.name, sir.expr_str(n["args"][0])[:40]))
+        obs.append(ob("C14.escape/sinks/expr-tokens", not bad and n_ >= 20, ctx.where(f), "%d tokens written by the expression printer are constants, literal-writer output or validated identifiers" % n_ if not bad else "written as a token without going through a literal writer: %s" % bad[:3],
+                      witness=None if not bad else "a['0'] is printed as a.0, which does not parse back"))
+    # numbers are spelled by the float writer only (no integer casts in the printer)
+    casts = []
+    for f in tc.fns:
+        if f.body and f.module[:1] == ["stringify"]:
+            for n in sir.walk(f.body):
+                if n.get("k") == "cast" and re.fullmatch(r"[iu](8|16|32|64|128|size)", (n.get("ty") or "").strip()):
+                    src_ = sir.expr_str(n["e"])
+                    casts.append("%s: `%s as %s`" % (f.name, src_[:30], n["ty"]))
+    lf = [x for x in casts if "value" in x]
+    obs.append(ob("C14.literal/no-int-cast", not lf, "stringify/expr.rs", "the printer does not squeeze a numeric value through an integer type" if not lf else "numeric value cast to an integer before printing: %s" % lf[:2],
+                  witness=None if not lf else "{{ 1e19 }} is printed as 9223372036854775807"))
+    return obs
+
+
 def run(ctx):
     obs = printer_rules(ctx)
     from rules.c12 import find_escaper, check_escaper
@@ -559,6 +640,7 @@ def run(ctx):
     obs += vocabulary_rules(ctx)
     obs += scope_rules(ctx)
     obs += mangled_declaration_rule(ctx)
+    obs += wave8_rules(ctx)
     n = sum(1 for o in obs if o["key"].startswith("C14.children/"))
     if n < 44:
         obs.append(ctx.ob("C14.floor/children", False, "stringify/expr.rs", "only %d variants analysed (floor 44)" % n))
